@@ -19,7 +19,7 @@ from __future__ import annotations
 import ast
 
 MUTABLE_CALLS = {"dict", "list", "set", "defaultdict", "OrderedDict", "collections.defaultdict", "collections.OrderedDict", "deque", "collections.deque",
-                 "np.zeros", "np.empty", "np.ones", "np.full", "numpy.zeros", "numpy.empty"}
+                 "np.zeros", "np.empty", "np.ones", "np.full", "numpy.zeros", "numpy.empty", "np.array", "numpy.array", "np.eye", "np.identity", "np.asarray"}
 MUTATORS_KEYED = {"setdefault": (0, 1), "__setitem__": (0, 1)}
 MUTATORS_UNKEYED = {"append", "extend", "insert", "add", "update", "appendleft"}
 REMOVERS = {"pop", "popitem", "clear", "remove", "discard"}
@@ -35,6 +35,9 @@ def _is_mutable_expr(v):
 
 # (container, input) pairs confirmed by reading: the key does determine the value although the rule cannot see it
 CONFIRMED = {
+    ("yadism.esf.scale_variations::ScaleVariations().operators", "element order_labels of self.raw_labels"):
+        "the labels of the splitting-function registry are distinct across orders (splitting_functions/__init__.py: raw_labels = one dict per order, "
+        "names carry the order; C05.labels decides on every run that the registry is not cross-wired): the label alone determines the generator",
     ("yadism.runner::Runner().observables", "obs_name"):
         "ObservableName is a value object built from its name (observable_name.py: name = kind + '_' + flavor, __eq__ compares kind and flavor): "
         "equal names denote equal objects",
@@ -200,7 +203,7 @@ class FuncDeps:
                 else:
                     merge(self.roots(f.value, seen))
             elif isinstance(f, ast.Name):
-                if f.id in self.params or f.id in self.assigns or f.id in self.outer:
+                if f.id in self.params or f.id in self.assigns or f.id in self.outer or f.id in self.loops:
                     merge(self.roots(f, seen))
             else:
                 merge(self.roots(f, seen))
@@ -341,6 +344,27 @@ def _is_memo_lookup(fn, container_expr):
     return False
 
 
+def _internal_callers(fn, cls_node):
+    """Call sites `self.<fn>(...)` in the other methods of the class -> [(caller function, call node)]"""
+    out = []
+    if cls_node is None:
+        return out
+    for m in cls_node.body:
+        if isinstance(m, (ast.FunctionDef, ast.AsyncFunctionDef)) and m is not fn:
+            for n in ast.walk(m):
+                if isinstance(n, ast.Call) and isinstance(n.func, ast.Attribute) and n.func.attr == fn.name and isinstance(n.func.value, ast.Name) and n.func.value.id == "self":
+                    out.append((m, n))
+    return out
+
+
+def _memo_lookup_in_callers(fn, cls_node, container_expr):
+    """A private helper that only stores: the lookup half of the memo idiom sits in the method(s) calling it."""
+    if not fn.name.startswith("_") or fn.name.startswith("__"):
+        return False
+    callers = _internal_callers(fn, cls_node)
+    return bool(callers) and all(_is_memo_lookup(c, container_expr) for c, _ in callers)
+
+
 def _resolve_container(expr, fn, module, cls_node, table, project_classes):
     """Does `expr` (the object being indexed / mutated / assigned) denote a process-wide container? -> label or None"""
     if isinstance(expr, ast.Name):
@@ -422,7 +446,7 @@ def stores(module, project_classes):
                             out.append(Store(lab, n, t.slice, n.value, "[key] = value", fn, module, cls_node.name if cls_node else None))
                         else:
                             owner = _instance_container(t.value, cls_node, project_classes)
-                            if owner and isinstance(n, ast.Assign) and _is_memo_lookup(fn, t.value):
+                            if owner and isinstance(n, ast.Assign) and (_is_memo_lookup(fn, t.value) or _memo_lookup_in_callers(fn, cls_node, t.value)):
                                 out.append(Store(f"{module.name}::{owner}().{t.value.attr}", n, t.slice, n.value, "[key] = value (memo on the instance)", fn, module,
                                                  cls_node.name if cls_node else None, scope="instance"))
                     elif isinstance(t, ast.Attribute):
@@ -448,6 +472,231 @@ def stores(module, project_classes):
     return out, table
 
 
+
+# ----------------------------------------------------------------------------- in-place changes through aliases
+ELEMENT_MUTATORS = {"append", "extend", "insert", "add", "update", "appendleft", "setdefault", "pop", "popitem", "clear", "remove", "discard", "sort", "reverse",
+                    "fill", "resize", "itemset", "put", "partition", "setfield", "setflags", "byteswap"}
+SHALLOW_WRAPPERS = {"list", "tuple", "sorted", "reversed", "iter", "next", "dict", "set", "enumerate", "zip", "filter", "np.asarray", "numpy.asarray", "np.asanyarray",
+                    "np.ascontiguousarray", "np.atleast_1d", "np.ravel", "itertools.chain"}
+SHALLOW_METHODS = {"get", "values", "items", "copy", "pop", "setdefault", "ravel", "reshape", "view", "squeeze", "transpose"}
+IMMUTABLE_NODES = (ast.Constant, ast.Tuple, ast.JoinedStr, ast.Lambda)
+
+
+def _elements_immutable(container_node):
+    """Container literal whose elements are all constants / tuples of constants / functions: an alias of an element cannot change it."""
+    v = getattr(container_node, "value", None)
+    if isinstance(v, ast.Dict):
+        elems = v.values
+    elif isinstance(v, (ast.List, ast.Set, ast.Tuple)):
+        elems = v.elts
+    else:
+        return False
+    def imm(e):
+        if isinstance(e, ast.Constant) or isinstance(e, (ast.Lambda, ast.JoinedStr)):
+            return True
+        if isinstance(e, ast.Tuple):
+            return all(imm(x) for x in e.elts)
+        if isinstance(e, (ast.Name, ast.Attribute)):
+            return True  # a function / class / constant named elsewhere (dispatch tables)
+        if isinstance(e, ast.UnaryOp):
+            return imm(e.operand)
+        if isinstance(e, ast.BinOp):
+            return imm(e.left) and imm(e.right)
+        return False
+    return bool(elems) and all(imm(e) for e in elems)
+
+
+def _param_mutations(fn):
+    """Parameters a function changes in place by itself (subscript store, augmented assignment, mutator method, out=)."""
+    a = fn.args
+    params = [x.arg for x in a.posonlyargs + a.args]
+    rebound = {n.id for n in ast.walk(fn) if isinstance(n, ast.Name) and isinstance(n.ctx, ast.Store) and not isinstance(getattr(n, "_parent", None), ast.AugAssign)}
+    out = set()
+    for n in ast.walk(fn):
+        if isinstance(n, (ast.Assign, ast.AugAssign)):
+            for t in (n.targets if isinstance(n, ast.Assign) else [n.target]):
+                if isinstance(t, ast.Subscript) and isinstance(t.value, ast.Name) and t.value.id in params and t.value.id not in rebound:
+                    out.add(t.value.id)
+                if isinstance(n, ast.AugAssign) and isinstance(t, ast.Name) and t.id in params and t.id not in rebound:
+                    out.add(t.id)
+        elif isinstance(n, ast.Call):
+            if isinstance(n.func, ast.Attribute) and n.func.attr in ELEMENT_MUTATORS and isinstance(n.func.value, ast.Name) and n.func.value.id in params \
+                    and n.func.value.id not in rebound:
+                out.add(n.func.value.id)
+            for k in n.keywords:
+                if k.arg == "out" and isinstance(k.value, ast.Name) and k.value.id in params and k.value.id not in rebound:
+                    out.add(k.value.id)
+    return {p: params.index(p) for p in out}
+
+
+def alias_mutations(module, project_classes, table, memo_attrs, mutating_functions):
+    """Objects taken out of process-wide containers (or memos on self) through local names and then changed in place.
+    -> [dict(node, fn, cls_name, label, alias, how, definite)]"""
+    res = []
+    for fn in ast.walk(module.tree):
+        if not isinstance(fn, (ast.FunctionDef, ast.AsyncFunctionDef)):
+            continue
+        cls_node = _enclosing(fn, (ast.ClassDef,))
+        own = [n for n in ast.walk(fn) if _enclosing(n, (ast.FunctionDef, ast.AsyncFunctionDef)) is fn or n is fn]
+
+        def direct(expr):
+            lab = _resolve_container(expr, fn, module, cls_node, table, project_classes)
+            if lab:
+                return lab
+            if isinstance(expr, ast.Attribute) and isinstance(expr.value, ast.Name) and expr.value.id == "self" and cls_node is not None:
+                c, seen = cls_node, set()
+                todo = [cls_node]
+                while todo:
+                    c = todo.pop()
+                    if c.name in seen:
+                        continue
+                    seen.add(c.name)
+                    if (c.name, expr.attr) in memo_attrs:
+                        return memo_attrs[(c.name, expr.attr)]
+                    for b in c.bases:
+                        nm = b.id if isinstance(b, ast.Name) else (b.attr if isinstance(b, ast.Attribute) else None)
+                        if nm in project_classes:
+                            todo.append(project_classes[nm])
+            return None
+
+        aliases = {}  # local name -> (label, binding node)
+
+        def shared_of(e, extra=None):
+            """label if the value of e is, or holds as elements, objects that live in a shared container"""
+            env = dict(aliases)
+            if extra:
+                env.update(extra)
+            if isinstance(e, ast.Name):
+                return env.get(e.id, (None,))[0] or direct(e)
+            lab = direct(e)
+            if lab:
+                return lab
+            if isinstance(e, ast.Subscript):
+                return shared_of(e.value, extra)
+            if isinstance(e, ast.Starred):
+                return shared_of(e.value, extra)
+            if isinstance(e, (ast.Tuple, ast.List)):
+                for x in e.elts:
+                    r = shared_of(x, extra)
+                    if r:
+                        return r
+                return None
+            if isinstance(e, ast.IfExp):
+                return shared_of(e.body, extra) or shared_of(e.orelse, extra)
+            if isinstance(e, ast.Call):
+                f = e.func
+                if isinstance(f, ast.Attribute) and f.attr in SHALLOW_METHODS:
+                    if f.attr == "copy" and not direct(f.value):
+                        return None  # a copy of an element (array / dict / list): a new object; a copy of the container itself is shallow
+                    return shared_of(f.value, extra)
+                if ast.unparse(f) in SHALLOW_WRAPPERS and e.args:
+                    for x in e.args:
+                        r = shared_of(x, extra)
+                        if r:
+                            return r
+                return None
+            if isinstance(e, (ast.ListComp, ast.GeneratorExp, ast.SetComp)):
+                loc = dict(extra or {})
+                for g in e.generators:
+                    r = shared_of(g.iter, loc)
+                    if r:
+                        for nm in ast.walk(g.target):
+                            if isinstance(nm, ast.Name):
+                                loc[nm.id] = (r, g)
+                return shared_of(e.elt, loc)
+            if isinstance(e, ast.Attribute):
+                return None
+            return None
+
+        for _ in range(3):  # flow-insensitive fixpoint over the function's own bindings
+            for n in own:
+                if isinstance(n, ast.Assign):
+                    r = shared_of(n.value)
+                    if r:
+                        for t in n.targets:
+                            for nm in ([t] if isinstance(t, ast.Name) else [x for x in ast.walk(t) if isinstance(x, ast.Name)] if isinstance(t, (ast.Tuple, ast.List)) else []):
+                                aliases.setdefault(nm.id, (r, n))
+                elif isinstance(n, ast.For):
+                    r = shared_of(n.iter)
+                    if r:
+                        for nm in ast.walk(n.target):
+                            if isinstance(nm, ast.Name):
+                                aliases.setdefault(nm.id, (r, n))
+                elif isinstance(n, ast.NamedExpr):
+                    r = shared_of(n.value)
+                    if r:
+                        aliases.setdefault(n.target.id, (r, n))
+        # a name that is also bound to something fresh on another path stays an alias (may-analysis): reported as definite only if every binding is shared
+        fresh = set()
+        for n in own:
+            if isinstance(n, ast.Assign) and not shared_of(n.value):
+                for t in n.targets:
+                    if isinstance(t, ast.Name):
+                        fresh.add(t.id)
+        params = {x.arg for x in fn.args.posonlyargs + fn.args.args + fn.args.kwonlyargs}
+
+        def target_label(e):
+            """(label, alias name) if e names a shared object itself (alias or the container attribute)"""
+            if isinstance(e, ast.Name) and e.id in aliases and e.id not in params:
+                return aliases[e.id][0], e.id
+            if isinstance(e, ast.Subscript):
+                # element of a container taken directly, e.g. self.masks["dus"] |= m
+                r = direct(e.value) or (aliases[e.value.id][0] if isinstance(e.value, ast.Name) and e.value.id in aliases and e.value.id not in params else None)
+                if r:
+                    return r, ast.unparse(e)[:30]
+            return None, None
+
+        def report(node, lab, alias, how):
+            cont = [c for c in table.values() if c.label == lab]
+            if cont and _elements_immutable(cont[0].node) and how.startswith("augmented"):
+                return
+            res.append(dict(node=node, fn=fn, cls_name=cls_node.name if cls_node else None, label=lab, alias=alias, how=how, definite=alias not in fresh))
+
+        for n in own:
+            if isinstance(n, ast.AugAssign):
+                if isinstance(n.target, ast.Name):
+                    lab, al = target_label(n.target)
+                    if lab:
+                        report(n, lab, al, f"augmented assignment `{ast.unparse(n)[:50]}` (in place for arrays, lists, dicts, sets)")
+                elif isinstance(n.target, ast.Subscript) and isinstance(n.target.value, ast.Name):
+                    lab, al = target_label(n.target.value)
+                    if lab:
+                        report(n, lab, al, f"item update `{ast.unparse(n)[:50]}`")
+                elif isinstance(n.target, ast.Subscript):
+                    # C[k] += v directly on a container element that is itself a container (array, list)
+                    pass
+            elif isinstance(n, ast.Assign):
+                for t in n.targets:
+                    if isinstance(t, ast.Subscript) and isinstance(t.value, ast.Name):
+                        lab, al = target_label(t.value)
+                        if lab:
+                            report(n, lab, al, f"item store `{ast.unparse(n)[:50]}`")
+            elif isinstance(n, ast.Call):
+                if isinstance(n.func, ast.Attribute) and n.func.attr in ELEMENT_MUTATORS and isinstance(n.func.value, ast.Name):
+                    lab, al = target_label(n.func.value)
+                    if lab:
+                        report(n, lab, al, f"mutating call `{ast.unparse(n)[:50]}`")
+                for k in n.keywords:
+                    if k.arg == "out":
+                        lab, al = target_label(k.value)
+                        if lab:
+                            report(n, lab, al, f"`out=` argument in `{ast.unparse(n)[:50]}`")
+                # handing the shared object to a function that changes that parameter in place
+                cal = n.func.attr if isinstance(n.func, ast.Attribute) else (n.func.id if isinstance(n.func, ast.Name) else None)
+                cands = mutating_functions.get(cal, [])
+                if cands:
+                    for i, a_ in enumerate(n.args):
+                        lab, al = target_label(a_)
+                        if not lab:
+                            continue
+                        hits = [c for c in cands if (i + c["offset"]) in c["positions"]]
+                        if hits:
+                            res.append(dict(node=n, fn=fn, cls_name=cls_node.name if cls_node else None, label=lab, alias=al,
+                                            how=f"passed to `{cal}`, which changes that parameter in place ({hits[0]['where']})",
+                                            definite=len(hits) == len(cands) and al not in fresh))
+    return res
+
+
 def analyse(proj, module_filter=None):
     """-> (instances, n_containers): instance = dict(site, construct, status, detail)"""
     project_classes = {}
@@ -457,11 +706,31 @@ def analyse(proj, module_filter=None):
                 project_classes.setdefault(st.name, st)
     res = []
     n_containers = 0
+    # functions that change one of their parameters in place (one level, by simple name)
+    mutating_functions = {}
+    for m in proj.modules.values():
+        for fn in ast.walk(m.tree):
+            if isinstance(fn, (ast.FunctionDef, ast.AsyncFunctionDef)):
+                pm = _param_mutations(fn)
+                is_method = isinstance(getattr(fn, "_parent", None), ast.ClassDef) and not any(ast.unparse(d) == "staticmethod" for d in fn.decorator_list)
+                mutating_functions.setdefault(fn.name, []).append(dict(positions=set(pm.values()), offset=1 if is_method else 0, where=f"{m.relpath}:{fn.lineno}"))
+    mutating_functions = {k: v for k, v in mutating_functions.items() if any(c["positions"] for c in v)}
     for m in proj.modules.values():
         if module_filter is not None and not module_filter(m):
             continue
         sts, table = stores(m, project_classes)
         n_containers += len(table)
+        memo_attrs = {}
+        for s_ in sts:
+            if s_.scope == "instance":
+                owner, attr = s_.container.split("::")[1].split("().")
+                memo_attrs[(owner, attr)] = s_.container
+        for am in alias_mutations(m, project_classes, table, memo_attrs, mutating_functions):
+            site = f"{m.relpath}:{am['node'].lineno}"
+            construct = f"{am['label']} <~ {m.name}::{(am['cls_name'] + '.') if am['cls_name'] else ''}{am['fn'].name}"
+            detail = (f"`{am['alias']}` names an object stored in {am['label']} (state that outlives the call) and is changed in place: {am['how']}; "
+                      "every later reader of the container sees the changed object")
+            res.append(dict(site=site, construct=construct, status="violated" if am["definite"] else "undecided", key=am["label"] + "|alias", detail=detail))
         consts = set()
         for s in sts:
             fd = FuncDeps(s.fn, consts, table)
@@ -469,13 +738,46 @@ def analyse(proj, module_filter=None):
             kD, kM = fd.roots(s.key) if s.key is not None else (set(), set())
             fd.for_key = False
             vD, vM = fd.roots(s.value) if s.value is not None else (set(), set())
+            # a private helper called only from inside the class: its parameters are what the callers pass (one level)
+            cls_node_ = _enclosing(s.fn, (ast.ClassDef,))
+            if s.fn.name.startswith("_") and not s.fn.name.startswith("__") and cls_node_ is not None and _internal_callers(s.fn, cls_node_):
+                params = [a.arg for a in s.fn.args.posonlyargs + s.fn.args.args][1:]
+                sub_k, sub_vD, sub_vM = [], [], []
+                for caller, call in _internal_callers(s.fn, cls_node_):
+                    amap = dict(zip(params, call.args))
+                    amap.update({k.arg: k.value for k in call.keywords if k.arg})
+                    cfd = FuncDeps(caller, consts, table)
+
+                    def subst(roots, for_key, definite):
+                        out_d, out_m = set(), set()
+                        for r in roots:
+                            base = r.split(".")[0].split(" ")[0]
+                            if base in amap and not r.startswith("element "):
+                                cfd.for_key = for_key
+                                d_, m_ = cfd.roots(amap[base])
+                                cfd.for_key = False
+                                (out_d if definite else out_m).update(d_)
+                                out_m.update(m_)
+                            else:
+                                (out_d if definite else out_m).add(r)
+                        return out_d, out_m
+
+                    kd_, km_ = subst(kD | kM, True, True)
+                    vd_, vm_ = subst(vD, False, True)
+                    vm2d_, vm2_ = subst(vM, False, False)
+                    sub_k.append(kd_ | km_ | _equal_to_self(caller, call))
+                    sub_vD.append(vd_)
+                    sub_vM.append(vm_ | vm2d_ | vm2_)
+                # all call sites must be fine: keep the context with the most uncovered inputs
+                worst = max(range(len(sub_k)), key=lambda i: len([r for r in sub_vD[i] if not _covered(r, sub_k[i] | {"self"})]))
+                kD, kM, vD, vM = sub_k[worst], set(), sub_vD[worst], sub_vM[worst]
             key_roots = kD | kM
             if s.scope == "instance":
                 key_roots = key_roots | {"self"}  # the memo lives on the object: its own (construction-time) state is part of the key
             if s.scope == "instance":
                 key_roots = key_roots | _equal_to_self(s.fn, s.node)
-            missing = sorted(r.split(" @loop")[0] for r in vD if not _covered(r, key_roots) and (s.container, r) not in CONFIRMED)
-            may_missing = sorted(r for r in vM if not _covered(r, key_roots) and (s.container, r) not in CONFIRMED)
+            missing = sorted(r.split(" @loop")[0] for r in vD if not _covered(r, key_roots) and (s.container, r.split(" @loop")[0]) not in CONFIRMED)
+            may_missing = sorted(r for r in vM if not _covered(r, key_roots) and (s.container, r.split(" @loop")[0]) not in CONFIRMED)
             site = f"{m.relpath}:{s.node.lineno}"
             construct = f"{s.container} <- {m.name}::{(s.cls_name + '.') if s.cls_name else ''}{s.fn.name}"
             stmt = ast.unparse(s.node)[:80]
@@ -526,6 +828,39 @@ class Guarded:
         self.cache[key] = obj
         return obj
 
+class Masks:
+    table = {"a": np.array([1, 0]), "b": np.array([0, 1])}
+    def bad(self, flavs):
+        active = [m for k, m in self.table.items() if k in flavs]
+        op = active[0]
+        for m in active[1:]:
+            op |= m
+        return op
+    def fine(self, flavs):
+        active = [m for k, m in self.table.items() if k in flavs]
+        op = active[0].copy()
+        for m in active[1:]:
+            op |= m
+        return op
+
+class Ops:
+    def __init__(self):
+        self.operators = {}
+    def raw(self, key):
+        if key not in self.operators:
+            self.operators[key] = compute(key)
+        return self.operators[key]
+    def spoil(self, key):
+        mat = self.operators[key]
+        mat += 1
+        return mat
+    def helper(self, key):
+        return insert_front(self.operators[key], 0)
+
+def insert_front(lst, v):
+    lst.insert(0, v)
+    return lst
+
 _tab = {}
 def good(a, b):
     k = f"{a}_{b}"
@@ -551,8 +886,9 @@ def canary():
     res, n = analyse(proj)
     st = sorted((r["key"], r["status"]) for r in res)
     expected = sorted([("canary::Guarded().cache", "discharged"), ("canary::Memo._w", "violated"), ("canary::PerObject().memo", "discharged"),
-                       ("canary::_tab", "discharged")])
-    if st != expected or n != 2:
+                       ("canary::_tab", "discharged"), ("canary::Masks.table|alias", "violated"), ("canary::Ops().operators", "discharged"),
+                       ("canary::Ops().operators|alias", "violated"), ("canary::Ops().operators|alias", "violated")])
+    if st != expected or n != 3:
         raise AnalysisError(f"process-state rule canary failed: {st}")
 
 
